@@ -396,7 +396,9 @@ func (f *Frame) dispatch(st *State, e *ast.CallExpr, fn *types.Func, recv *Term,
 	}
 	fi := f.eng.funcs[orig]
 	if fi != nil && f.depth < maxInlineDepth && !f.onStack(orig) && !c.eng.noInline[full] {
-		return f.inlineFunc(st, fi, recv, args, e)
+		rs := f.inlineFunc(st, fi, recv, args, e)
+		f.writeBackSorted(st, fi, e)
+		return rs
 	}
 	if fi != nil {
 		c.note("call not inlined (depth/recursion): " + shortFuncName(full))
@@ -810,4 +812,45 @@ func (f *Frame) builtin(st *State, e *ast.CallExpr, name string, preArgs []*Term
 	}
 	f.fail(e, "builtin %s unsupported", name)
 	return nil
+}
+
+// writeBackSorted: after inlining fi at call e, copy slice parameters that the callee sorted in place (sortedParams)
+// back to the caller's argument expressions, when those are assignable.
+func (f *Frame) writeBackSorted(st *State, fi *FuncInfo, e *ast.CallExpr) {
+	sp := sortedParams(fi)
+	if len(sp) == 0 || e == nil {
+		return
+	}
+	info := fi.Pkg.TypesInfo
+	back := func(obj types.Object, x ast.Expr) {
+		if obj == nil || !sp[obj] || x == nil {
+			return
+		}
+		if _, ok := st.vars[obj]; !ok {
+			return
+		}
+		switch unparen(x).(type) {
+		case *ast.Ident, *ast.SelectorExpr, *ast.IndexExpr, *ast.StarExpr:
+			f.store(st, f.lvalue(st, x), f.load(st, LVar{obj: obj}))
+		}
+	}
+	if fi.Decl.Recv != nil && len(fi.Decl.Recv.List) > 0 && len(fi.Decl.Recv.List[0].Names) > 0 {
+		if sel, ok := unparen(e.Fun).(*ast.SelectorExpr); ok {
+			back(info.Defs[fi.Decl.Recv.List[0].Names[0]], sel.X)
+		}
+	}
+	i := 0
+	if fi.Decl.Type.Params != nil {
+		for _, fl := range fi.Decl.Type.Params.List {
+			for _, n := range fl.Names {
+				if i < len(e.Args) {
+					back(info.Defs[n], e.Args[i])
+				}
+				i++
+			}
+			if len(fl.Names) == 0 {
+				i++
+			}
+		}
+	}
 }
